@@ -219,6 +219,7 @@ def ilp_cgdp(
                     pb += b >= xs[(c2, a2)] + xs[(c1, a1)] - 1
 
                 b = LpVariable("b_{}_{}_{}_{}".format(c1, a2, c2, a1), cat=LpBinary)
+                betas[(c1, a2, c2, a1)] = b
                 if (c1, a2) in x_fixed_to_0 or (c2, a1) in x_fixed_to_0:
                     pb += b == 0
                 elif (c1, a2) in x_fixed_to_1:
@@ -226,7 +227,6 @@ def ilp_cgdp(
                 elif (c2, a1) in x_fixed_to_1:
                     pb += b == xs[(c1, a2)]
                 else:
-                    betas[(c1, a2, c2, a1)] = b
                     pb += b <= xs[(c2, a1)]
                     pb += b <= xs[(c1, a2)]
                     pb += b >= xs[(c1, a2)] + xs[(c2, a1)] - 1
